@@ -119,8 +119,8 @@ func (pm *Portmapper) RegisterService(prog, vers, prot, port uint32) {
 	}
 }
 
-// UnregisterService unregisters an RPC service
-func (pm *Portmapper) UnregisterService(prog, vers, prot uint32) {
+// UnregisterService unregisters an RPC service and reports whether it was registered
+func (pm *Portmapper) UnregisterService(prog, vers, prot uint32) bool {
 	pm.mu.Lock()
 	defer pm.mu.Unlock()
 
@@ -132,9 +132,10 @@ func (pm *Portmapper) UnregisterService(prog, vers, prot uint32) {
 				pm.logger.Printf("Unregistered mapping: prog=%d vers=%d proto=%d",
 					prog, vers, prot)
 			}
-			return
+			return true
 		}
 	}
+	return false
 }
 
 // GetPort returns the port for a registered service (0 if not found)
@@ -572,9 +573,7 @@ func (pm *Portmapper) handleUnset(r io.Reader, remoteAddr net.Addr) []byte {
 		return pm.encodeBool(false)
 	}
 
-	pm.UnregisterService(prog, vers, prot)
-
-	return pm.encodeBool(true)
+	return pm.encodeBool(pm.UnregisterService(prog, vers, prot))
 }
 
 // handleGetAddr handles rpcbind v3/v4 GETADDR procedure
@@ -729,9 +728,7 @@ func (pm *Portmapper) handleRpcbUnset(r io.Reader) []byte {
 		return pm.encodeBool(false)
 	}
 
-	pm.UnregisterService(prog, vers, prot)
-
-	return pm.encodeBool(true)
+	return pm.encodeBool(pm.UnregisterService(prog, vers, prot))
 }
 
 // handleRpcbDump handles rpcbind v3/v4 DUMP procedure
